@@ -477,6 +477,35 @@ pub fn build(
             );
         }
 
+        // Every non-packed type is emitted with an `align(N)` attribute, and Rust does not
+        // allow a packed type to contain such a type by value.
+        for region in &regions {
+            fn get_item_path(type_ref: &Type) -> Option<&ItemPath> {
+                match type_ref {
+                    Type::Raw(tp) => Some(tp),
+                    Type::Array(t, _) => get_item_path(t),
+                    _ => None,
+                }
+            }
+            let Some(item) = get_item_path(&region.type_ref)
+                .and_then(|path| semantic.type_registry.get(path))
+            else {
+                continue;
+            };
+            if item.category() != ItemCategory::Defined {
+                continue;
+            }
+            if let Some(ItemDefinitionInner::Type(td)) = item.resolved().map(|r| &r.inner) {
+                if !td.packed {
+                    anyhow::bail!(
+                        "field `{}` of packed type `{resolvee_path}` is of the non-packed type `{}`, which a packed type cannot contain",
+                        region.name.as_deref().unwrap_or("unnamed"),
+                        item.path
+                    );
+                }
+            }
+        }
+
         1
     } else {
         // Determine the final requested alignment.
